@@ -1,7 +1,7 @@
 (* C15 — archives cannot direct reads or writes outside the archive's directory.
    Model: Model/GoPath.v (path.Clean / IsAbs / Join / Dir as gopar calls them, component-wise) and
    par2's checkFilename. *)
-From Gopar Require Import Model.Base Model.GoPath Model.CRC Model.FS Model.Par1 Model.Par2 Proofs.GoPathFacts Proofs.Par1Safety Proofs.Par2CreatePaths Proofs.CreateContain.
+From Gopar Require Import Model.Base Model.GoPath Model.CRC Model.FS Model.Par1 Model.Par2 Proofs.GoPathFacts Proofs.Par1Safety Proofs.Par2CreatePaths Proofs.CreateContain Proofs.Par2Targets.
 From Coq Require Import List. Import ListNotations.
 Open Scope N_scope.
 
@@ -94,3 +94,37 @@ Theorem C15_par1_create_inputs_untouched : forall md5 parPath files nvol fs sche
   fs_lookup (io_fs (snd (Par1.par1_create md5 parPath files nvol (io_init fs sched)))) q = fs_lookup fs q.
 Proof. exact par1_create_inputs_untouched. Qed.
 Print Assumptions C15_par1_create_inputs_untouched.
+
+(* VERIFY AND REPAIR (PAR2), for EVERY file system, fault schedule, index path and archive content: every write
+   event of Repair targets Join(Dir(index), name) for a declared name that checkFilename accepted - hence
+   (C15_join) the directory's components plus a non-empty list of ordinary components: strictly below the
+   directory of the index file; every read targets the index, such a path, or a file the one directory listing
+   returned (a key with the literal prefix <index minus extension>"." and the suffix ".par2"); Verify writes nothing *)
+Theorem C15_repair_write_targets : forall md5 ix dbl fs sched p d ok,
+  In (EvWrite p d ok) (io_trace (snd (par2_repair md5 ix dbl (io_init fs sched)))) ->
+  exists name, p = file_path ix name /\ check_filename name = Ok tt.
+Proof. exact repair_write_targets. Qed.
+Print Assumptions C15_repair_write_targets.
+
+Theorem C15_repair_writes_below_index_dir : forall md5 ix dbl fs sched p d ok,
+  In (EvWrite p d ok) (io_trace (snd (par2_repair md5 ix dbl (io_init fs sched)))) ->
+  exists st, st <> [] /\ no_dotdot st = true /\ forallb comp_ok st = true /\
+    p = render (is_abs (dir ix)) (st ++ clean_stack (is_abs (dir ix)) [] (split_slash (dir ix))).
+Proof. exact repair_writes_below_index_dir. Qed.
+Print Assumptions C15_repair_writes_below_index_dir.
+
+Theorem C15_repair_read_targets : forall md5 ix dbl fs sched p ok,
+  In (EvRead p ok) (io_trace (snd (par2_repair md5 ix dbl (io_init fs sched)))) ->
+  p = ix \/
+  (exists name, p = file_path ix name /\ check_filename name = Ok tt) \/
+  (In p (map fst fs) /\ exists mid, p = (strip_ext ix ++ [DOT]) ++ mid ++ EXT_PAR2).
+Proof. exact repair_read_targets. Qed.
+Print Assumptions C15_repair_read_targets.
+
+Theorem C15_verify_read_targets : forall md5 ix fs sched p ok,
+  In (EvRead p ok) (io_trace (snd (par2_verify md5 ix (io_init fs sched)))) ->
+  p = ix \/
+  (exists name, p = file_path ix name /\ check_filename name = Ok tt) \/
+  (In p (map fst fs) /\ exists mid, p = (strip_ext ix ++ [DOT]) ++ mid ++ EXT_PAR2).
+Proof. exact verify_read_targets. Qed.
+Print Assumptions C15_verify_read_targets.
